@@ -63,6 +63,21 @@ fn check_double(m: &Mat2Case, stat: Stat2, obs: &mut Obs) -> CheckResult {
     let exp = expect_series2(stat, &m.c.x, &m.c.y, m.c.w, m.c.mp);
     mask_check(&name, &got, &exp, OutT::F64, m.c.x.len())?;
     backend_classes(m.bk, m.ok, label, m.c.out_buf, obs);
+    // the same law for the Option / integer element types (Vec backend): a null Option inside a window
+    // must neither panic nor change the mask
+    if !matches!(stat, Stat2::RegxAllAlpha | Stat2::RegxAllBeta | Stat2::RegxAllSse) {
+        use tvh::conv::{materialize, normalize};
+        use tvh::sut;
+        let (ao, bo): (Vec<Option<f64>>, Vec<Option<f64>>) = (materialize(&m.c.x), materialize(&m.c.y));
+        let bf: Vec<f64> = materialize(&m.c.y);
+        let len = ao.len();
+        let e = |e: String| Fail { sig: "out-path".into(), detail: format!("{}: {}", name, e) };
+        let g1 = normalize(sut::via_vec(len, m.c.out_buf, |buf| sut::roll2::<_, Option<f64>, _, Option<f64>, Vec<Option<f64>>, Option<f64>>(&ao, &bo, stat, m.c.w, m.c.mp, buf)).map_err(e)?);
+        mask_check(&format!("{}<Option<f64>,Option<f64>>", name), &g1, &exp, OutT::OptF64, len)?;
+        let g2 = normalize(sut::via_vec(len, !m.c.out_buf, |buf| sut::roll2::<_, Option<f64>, _, f64, Vec<f64>, f64>(&ao, &bf, stat, m.c.w, m.c.mp, buf)).map_err(e)?);
+        mask_check(&format!("{}<Option<f64>,f64>", name), &g2, &exp, OutT::F64, len)?;
+        obs.class("option_elements");
+    }
     let joint: Series = m.c.x.iter().zip(m.c.y.iter()).map(|(a, b)| if a.is_some() && b.is_some() { Some(1.0) } else { None }).collect();
     obs.class_if(m.c.x.is_empty(), "len=0");
     obs.class_if(!m.c.x.is_empty() && m.c.x.len() < m.c.w, "len<w");
